@@ -38,10 +38,10 @@ EPS = {"u32": "u32", "u8": "u8", "u64": "u64", "f64": "f64", "P1": "&'a P1", "Ve
        "u16": "u16", "Vec<Vec<u16>>": "Vec<&'a [u16]>", "D1": "D1", "Option<Vec<u64>>": "Option<&'a [u64]>"}
 
 
-def mk_params(needed, zero, internal_kind, bound_style, defaults):
+def mk_params(needed, zero, internal_kind, bound_style, defaults, const_first=False):
     """needed: ordered set of param names among A B I Q N."""
     ps = []
-    for n in ["A", "B", "I", "Q", "N"]:
+    for n in (["N", "A", "B", "I", "Q"] if const_first else ["A", "B", "I", "Q", "N"]):
         if n not in needed:
             continue
         if n in ("A", "B"):
@@ -124,6 +124,20 @@ def enum_structs(tier):
                         d = D.E("X", [Variant("U", "unit", []), Variant("T", "tuple", [(str(i), t) for i, (_, t) in enumerate(fields)])], (), ps)
                     d.extra_where = extra_where
                     out.append((f"b.{kind}.{'+'.join(classes)}.{bstyle}.{'dflt' if dflt else 'nodflt'}", d))
+    # const parameter declared BEFORE the type parameters
+    for kind in ("struct", "enum"):
+        for zero in (False, True):
+            for classes in [("cN", "pA"), ("pA", "cN"), ("cN", "prim")]:
+                table = ZERO_CLASSES if zero else DEEP_CLASSES
+                need = needed_of(classes, table)
+                ps = mk_params(need, zero, "deep", "inline" if zero else "none", False, const_first=True)
+                fields = [(f"f{i}", table[c][0]) for i, c in enumerate(classes)]
+                attrs = D.ZC if zero else ()
+                if kind == "struct":
+                    d = D.S("X", fields, attrs, ps)
+                else:
+                    d = D.E("X", [Variant("U", "unit", []), Variant("T", "tuple", [(str(i), t) for i, (_, t) in enumerate(fields)])], attrs, ps)
+                out.append((f"k.{kind}.{'+'.join(classes)}.{'zero' if zero else 'deep'}.constfirst", d))
     # raw identifiers
     out.append(("s.named.raw", D.S("X", [("r#type", "u8"), ("r#match", "A")], (), [Param("A", "field")])))
     return out
